@@ -24,7 +24,7 @@ func init() {
 			"calls, batches and transactions (tracked and untracked delete markers), restarts, offline log retirement and online retention (WAL.ManageRetention on the running engine after flushing everything). Two oracles: (1) file level - around every triggered/range compaction the " +
 			"newest-wins merged view of ALL table files (read through sstable.Reader; recency from the documented file naming) must be unchanged, a delete marker may vanish only if no older version " +
 			"remains in any file, every file strictly ascending; (2) engine level - every read is compared with the map model, also after reopening on the compacted files with the log retired. " +
-			"distinct = hash(config, op kinds); non-trivial = >= 1 compaction actually changed the set of table files and >= 1 reopen/retire followed",
+			"Every 25th case is the staged retention-during-rotation schedule (a flush parked at one of three points of the log hand-over while ManageRetention runs on the old log handle; writes made afterwards must survive a restart). distinct = hash(config, op kinds); non-trivial = >= 1 compaction actually changed the set of table files and >= 1 reopen/retire followed",
 		Assumptions: []string{"recency of table files is what their names say: lower level = newer, inside a level later creation time = newer (the rule the storage manager itself uses on restart)",
 			"background compaction is switched off (interval 1h) in 70% of the cases so that the file-level comparison brackets exactly one compaction"},
 		NumCases: func(tier string) int {
